@@ -9,6 +9,7 @@ import (
 	"slices"
 	"strings"
 	"sync"
+	"syscall"
 	"time"
 
 	"github.com/containerd/continuity/fs"
@@ -336,7 +337,9 @@ func (c *copier) copy(ctx context.Context, src, srcComponents, target string, ov
 		return errors.Wrapf(err, "failed to stat %s", src)
 	}
 	targetFi, err := os.Lstat(target)
-	if err != nil && !os.IsNotExist(err) {
+	if err != nil && !os.IsNotExist(err) && !errors.Is(err, syscall.ENOTDIR) {
+		// ENOTDIR: a parent of target is not a directory. That only matters if
+		// something below it gets copied, and creating the parent reports it then.
 		return errors.Wrapf(err, "failed to stat %s", src)
 	}
 
